@@ -20,6 +20,12 @@ M = [
  ("C06", "coul-const", "potentialfunctions.py", "return (qi * qj)/(4.0*math.pi*0.0055264*r)", "return (qi * qj)/(4.0*math.pi*0.0055624*r)"),
  ("C06", "sqrt-scale", "potentialfunctions.py", "return G*math.sqrt(r)", "return G*math.sqrt(r)*1.0000001"),
  ("C06", "morse-swap", "potentialfunctions.py", "def __call__(self, r, gamma, r_star, D):", "def __call__(self, r, r_star, gamma, D):"),
+ ("C07", "product-cross-term", "__init__.py", "2.0*deriv_a(r)*deriv_b(r)", "deriv_a(r)*deriv_b(r)"),
+ ("C07", "pow-sign", "__init__.py", "- (br*da*da)/(ar**2))*p", "+ (br*da*da)/(ar**2))*p"),
+ ("C07", "trans-deriv2", "_modifiers.py", "return potential_func.deriv2(r+trans_value)", "return potential_func.deriv(r+trans_value)"),
+ ("C07", "spline-deriv2-mid", "spline/__init__.py", None, None),
+ ("C07", "lj-deriv2-coef", "potentialfunctions.py", "-168.0*epsilon*sigma**6/r**8", "-186.0*epsilon*sigma**6/r**8"),
+ ("C07", "revert-poly-fix", "potentialfunctions.py", "for (i,c) in enumerate(coefs) if i >= 1]", "for (i,c) in enumerate(coefs)][1:]"),
  ("C03", "setfl-nr-minus-1", "eam_tabulation.py", None, None),
 ]
 def main():
